@@ -21,7 +21,9 @@ BOUND = (
     '(+ one "invalid"), run ids {1,2,17}, appended via chronicle.append and schedule.complete in any order; '
     'queries: every (after, before) with bounds in {None} + (same grid +-1 us), every limit 0..9 and None, '
     'succeeded True/False, "now" injected after the newest entry (5 fixed + 3 seeded histories quick; '
-    '5 fixed + 95 seeded histories thorough; two-sided windows take one rotating limit each in quick, all 11 in thorough)'
+    '5 fixed + 95 seeded histories thorough; two-sided windows take one rotating limit each in quick, all 11 in thorough); '
+    'plus fixed "interleaved" histories (8 entries, 3 run-id files in each of 2 days, an OLDER run id completing AFTER a '
+    'newer one within the day for both outcomes; 2 day groups quick, all 5 thorough) queried the same way'
 )
 
 REPO = os.environ.get('VERIF_REPO', '/repo')
@@ -130,6 +132,40 @@ def _fixed_history(group: str) -> list:
                 'status': status,
                 'runid': RUNIDS[ri],
                 'target': f'T{i}' if i != 6 else '__all__',
+                'task': TASKS[i % len(TASKS)],
+                'via': via,
+            }
+        )
+    return out
+
+
+INTERLEAVED_GROUPS = {'quick': ['leap', 'month30'], 'thorough': sorted(GROUPS)}
+
+
+def _interleaved_history(group: str) -> list:
+    '''several run-id files per day directory; inside a day an older run id
+    completes after a newer one (run 1 after runs 2 and 17, run 2 after run 17),
+    for successes and for failures, so that "newest first" and "the newest
+    `limit`" differ from any order that looks at the run id first'''
+    days = GROUPS[group]
+    pattern = [  # (day index, tod, status, run id, via)
+        (0, 0, 'success', 17, 'append'),
+        (0, 1, 'success', 2, 'complete'),
+        (0, 2, 'success', 1, 'append'),
+        (0, 3, 'failure', 1, 'complete'),
+        (0, 1, 'failure', 17, 'append'),
+        (-1, 0, 'success', 2, 'append'),
+        (-1, 3, 'success', 1, 'complete'),
+        (-1, 2, 'success', 17, 'append'),
+    ]
+    out = []
+    for i, (di, tod, status, runid, via) in enumerate(pattern):
+        out.append(
+            {
+                'completed': _iso(_t(days[di], tod)),
+                'status': status,
+                'runid': runid,
+                'target': f'I{i}',
                 'task': TASKS[i % len(TASKS)],
                 'via': via,
             }
@@ -490,6 +526,7 @@ def _scenario(args):
 def run(tier: str, seed: int) -> dict:
     rng = random.Random(seed)
     scenarios = [(f'fixed:{g}', g, _fixed_history(g), tier, 0) for g in GROUPS]
+    scenarios += [(f'interleaved:{g}', g, _interleaved_history(g), tier, 3) for g in INTERLEAVED_GROUPS[tier]]
     for i in range(3 if tier == 'quick' else 95):
         g, h = _seeded_history(rng, i)
         scenarios.append((f'seed{seed}:{i}:{g}', g, h, tier, rng.randrange(10)))
@@ -521,7 +558,8 @@ def run(tier: str, seed: int) -> dict:
             'each history is recorded through the real append/complete (one case per append, files re-read '
             'after each) and then queried with every window/limit/outcome of BOUND (one case per find call); '
             'all queries of a history are pairwise different; a query is non-trivial when the brute-force '
-            'window is non-empty'
+            'window is non-empty; the fixed and the "interleaved" histories (older run id completing after a newer '
+            'one inside one day directory, several files per day) do not depend on the seed'
         ),
         'exhaustive': False,
         'samples': samples,
